@@ -89,7 +89,7 @@ def parse_terse(out):
     return res
 
 
-def run_group(sc, names, stubbing, jobs, timeout, log):
+def run_group(sc, names, stubbing, jobs, timeout, log, cwd=None, tdir="target-kani"):
     cmd = ["cargo", "kani"]
     for n in names:
         cmd += ["--harness", n]
@@ -100,7 +100,9 @@ def run_group(sc, names, stubbing, jobs, timeout, log):
         cmd += ["-Z", "stubbing"]
     t0 = time.time()
     import signal
-    proc = subprocess.Popen(cmd, cwd=sc.repo, env=_env(sc), stdout=subprocess.PIPE, stderr=subprocess.STDOUT, text=True, start_new_session=True)
+    env = _env(sc)
+    env["CARGO_TARGET_DIR"] = os.path.join(CACHE, tdir)
+    proc = subprocess.Popen(cmd, cwd=cwd or sc.repo, env=env, stdout=subprocess.PIPE, stderr=subprocess.STDOUT, text=True, start_new_session=True)
     try:
         out, _ = proc.communicate(timeout=timeout)
         timed_out = False
@@ -118,12 +120,14 @@ def run_group(sc, names, stubbing, jobs, timeout, log):
     return parse_terse(out), timed_out, out
 
 
-def playback(sc, name, stubbing, timeout=900):
+def playback(sc, name, stubbing, timeout=900, cwd=None, tdir="target-kani"):
     cmd = ["cargo", "kani", "--harness", name, "--output-format=terse", "-Z", "concrete-playback", "--concrete-playback=print"]
     if stubbing:
         cmd += ["-Z", "stubbing"]
     try:
-        p = subprocess.run(cmd, cwd=sc.repo, env=_env(sc), stdout=subprocess.PIPE, stderr=subprocess.STDOUT, text=True, timeout=timeout)
+        env = _env(sc)
+        env["CARGO_TARGET_DIR"] = os.path.join(CACHE, tdir)
+        p = subprocess.run(cmd, cwd=cwd or sc.repo, env=env, stdout=subprocess.PIPE, stderr=subprocess.STDOUT, text=True, timeout=timeout)
     except subprocess.TimeoutExpired:
         return None
     tests = []      # (kind, vals)
@@ -177,15 +181,22 @@ def run_harnesses(res, cfg, sc, tier):
     # group by stubbing flag; heavy harnesses run alone in parallel groups via -j
     jobs = int(os.environ.get("VERIF_JOBS", "12"))
     results = {}
-    for stub in (False, True):
-        grp = [h for h in want if bool(h.get("stubbing")) == stub]
-        if not grp:
-            continue
-        tmo = max(h.get("timeout", 600) for h in grp) + 120
-        r, timed_out, raw = run_group(sc, [h["name"] for h in grp], stub, jobs, tmo, res.log)
-        for h in grp:
-            full = [k for k in r if k.endswith("::" + h["name"])]
-            results[h["name"]] = r[full[0]] if full else {"status": "TIMEOUT" if timed_out else "MISSING", "text": raw[-1500:]}
+    if any(h.get("crate") == "ext" for h in want):
+        ext = os.path.join(sc.dir, "ext")
+        shutil.copytree(os.path.join(KDIR, "ext"), ext)
+        shutil.copy(os.path.join(sc.repo, "Cargo.lock"), os.path.join(ext, "Cargo.lock"))
+    for crate in ("", "ext"):
+        for stub in (False, True):
+            grp = [h for h in want if bool(h.get("stubbing")) == stub and h.get("crate", "") == crate]
+            if not grp:
+                continue
+            tmo = max(h.get("timeout", 600) for h in grp) + 120
+            cwd = os.path.join(sc.dir, "ext") if crate == "ext" else None
+            tdir = "target-kani-ext" if crate == "ext" else "target-kani"
+            r, timed_out, raw = run_group(sc, [h["name"] for h in grp], stub, jobs, tmo, res.log, cwd=cwd, tdir=tdir)
+            for h in grp:
+                full = [k for k in r if k.endswith("::" + h["name"])]
+                results[h["name"]] = r[full[0]] if full else {"status": "TIMEOUT" if timed_out else "MISSING", "text": raw[-1500:]}
     res.log["kani_cmd"] = " ; ".join(res.log.get("kani_cmds", []))
     for h in want:
         r = results[h["name"]]
@@ -204,7 +215,8 @@ def run_harnesses(res, cfg, sc, tier):
         elif st == "FAILED":
             o["status"] = "failed"
             o["verifier_output"] = r["text"]
-            vals = playback(sc, h["name"], bool(h.get("stubbing")))
+            vals = playback(sc, h["name"], bool(h.get("stubbing")), cwd=(os.path.join(sc.dir, "ext") if h.get("crate") == "ext" else None),
+                            tdir=("target-kani-ext" if h.get("crate") == "ext" else "target-kani"))
             rp = {"harness": h["name"], "concrete_values": vals, "found_input": False}
             if vals is not None:
                 flat = [b for v in vals for b in v]
